@@ -351,7 +351,11 @@ func (w *World) checkConfirmations(n *Node, prev, cur *Snap, op OpInfo) {
 			w.NontrivFor("C01", fmt.Sprintf("conf/%s/%s/ok=%v/%s/spends=%v", op.Kind, ev.Path, ev.OK, amountClass(v.Transaction.Spice.Currency, v.Transaction.Spice.SupplementaryCurrency), ev.Out.Sign() > 0))
 		}
 		if !ev.OK {
-			w.Violate("C01", "confirmed-overdraft/"+ev.Path, fmt.Sprintf("node %s: vertex %s (%s -> %s, %s, sealed by %s) became confirmed although in its own history the issuer received %s and spent %s before it (short by %s)",
+			sig := "confirmed-overdraft/" + ev.Path
+			if ev.CheckpointOverdrawn {
+				sig = "confirmed-overdraft/issuer-overdrawn-in-checkpoint"
+			}
+			w.Violate("C01", sig, fmt.Sprintf("node %s: vertex %s (%s -> %s, %s, sealed by %s) became confirmed although in its own history the issuer received %s and spent %s before it (short by %s)",
 				n.Name, Hex(h), w.NameOf(v.Transaction.IssuerAddress), w.NameOf(v.Transaction.ReceiverAddress), MelStr(v.Transaction.Spice), w.NameOf(v.SignerPublicAddress),
 				ev.In, ev.Out, new(big.Int).Sub(new(big.Int).Add(ev.Out, ev.Amount), ev.In)))
 		}
@@ -432,6 +436,16 @@ func (w *World) evalConfirm(n *Node, cur *Snap, v *accountant.Vertex, op OpInfo)
 			yield(sv)
 		}
 	})
+	if len(cur.Stored) > 0 {
+		cin, cout := Flows(issuer, func(yield func(*accountant.Vertex)) {
+			for sh, sv := range cur.Stored {
+				if sh != v.Hash {
+					yield(sv)
+				}
+			}
+		})
+		ev.CheckpointOverdrawn = cin.Cmp(cout) < 0 && issuer != w.GenIss
+	}
 	ev.In, ev.Out, ev.Amount = in, out, Val(v.Transaction.Spice)
 	need := new(big.Int).Add(out, ev.Amount)
 	if issuer == v.Transaction.ReceiverAddress {
